@@ -331,7 +331,8 @@ def _register_capabilities_hooks(converter: cattrs.Converter) -> cattrs.Converte
             return None
         if isinstance(object_, (bool, int, str, float)):
             return object_
-        if "id" in object_ or "documentSelector" in object_:
+        # MonikerRegistrationOptions has no `id` (it does not mix in StaticRegistrationOptions).
+        if "documentSelector" in object_:
             return converter.structure(object_, lsp_types.MonikerRegistrationOptions)
         else:
             return converter.structure(object_, lsp_types.MonikerOptions)
